@@ -225,7 +225,7 @@ def eigen_sym33_non_unit(tensor):
     #
     b = 0.5*(rm2xx-rm2yy)
 
-    sqrtTerm = Math.safe_sqrt(b*b+rm2xy_rm2xy)*np.sign(b)
+    sqrtTerm = Math.safe_sqrt(b*b+rm2xy_rm2xy)*np.where(b >= 0, 1.0, -1.0)
     #sqrtTerm = np.sqrt(b*b+rm2xy_rm2xy)*np.sign(b)
     
     eval0 = rm2yy + b - sqrtTerm
